@@ -107,6 +107,7 @@ type Machine struct {
 	RangeCover    map[*ssa.Range]int // largest map each range instruction was interpreted on
 	rangeSeen     map[string]bool
 	AltFilter     func(st *State, v Val) Val     // applied to the alternative a fork takes
+	OpaqueEq      func(a, b string) (eq, known bool) // equality of two opaque tokens, when the scenario knows it
 	SampleOrders  bool                           // range over a map too large to enumerate: fork three orders (see *ssa.Range)
 	ExtGlobals    map[string]Val                 // values of package-level variables outside the repository (io.EOF, ...)
 	NoExactConcat bool                           // tape mode: string concatenation keeps only emptiness
@@ -899,6 +900,14 @@ func (m *Machine) step(st *State) (forks []*State) {
 		}
 		if m.OnConcat != nil && x.Op == token.ADD && isStringT(x.Type()) {
 			m.OnConcat(st, x, a, b)
+		}
+		if oa, isO := a.(OpaqueV); isO && m.OpaqueEq != nil && (x.Op == token.EQL || x.Op == token.NEQ) {
+			if ob, isO := b.(OpaqueV); isO {
+				if eq, known := m.OpaqueEq(oa.Name, ob.Name); known {
+					set(eq == (x.Op == token.EQL))
+					return nil
+				}
+			}
 		}
 		r, ok := m.binop(st, x.Op, a, b, x.X.Type())
 		if !ok {
@@ -2393,6 +2402,13 @@ func (m *Machine) compare(st *State, op token.Token, a, b Val) (Val, bool) {
 				eq = eq && rb
 			}
 			return eq == (op == token.EQL), true
+		}
+	}
+	if xa, ok := a.(OpaqueV); ok && m.OpaqueEq != nil && (op == token.EQL || op == token.NEQ) {
+		if ya, ok := b.(OpaqueV); ok {
+			if eq, known := m.OpaqueEq(xa.Name, ya.Name); known {
+				return eq == (op == token.EQL), true
+			}
 		}
 	}
 	switch x := a.(type) {
